@@ -17,7 +17,7 @@
 # along with this program.  If not, see <http://www.gnu.org/licenses/>.
 
 import logging
-from dataclasses import asdict
+from dataclasses import fields
 from contextlib import contextmanager
 from typing import Any, List, Sequence, Tuple
 from typeguard import typechecked
@@ -127,7 +127,13 @@ class GCodeCore(object):
         """
 
         if args and isinstance(args[0], GConfig):
-            kwargs = {**asdict(args[0]), **kwargs}
+            # Read the fields as they are: asdict() would deep-copy a
+            # file-like output and the lines would never reach it
+            config_fields = {
+                field.name: getattr(args[0], field.name)
+                for field in fields(args[0])
+            }
+            kwargs = {**config_fields, **kwargs}
 
         if args and isinstance(args[0], dict):
             kwargs = {**args[0], **kwargs}
